@@ -130,22 +130,37 @@ theorem blt20 : Nat.blt 2 0 = false := rfl
 theorem rank_bool_str : DT.boolean.uriRank < DT.string.uriRank := by decide
 
 
+theorem rank_chain : DT.boolean.uriRank < DT.date.uriRank ∧ DT.date.uriRank < DT.dateTime.uriRank ∧
+    DT.dateTime.uriRank < DT.string.uriRank := by decide
+
+theorem blt_dec (a b : Nat) : Nat.blt a b = decide (a < b) := by
+  cases h : decide (a < b) with
+  | true => rw [Nat.blt_eq]; simpa using h
+  | false => rw [Bool.eq_false_iff, ne_eq, Nat.blt_eq]; simpa using h
+
 def isLit : Term → Bool
   | .num .. => true
   | .bool _ => true
   | .str .. => true
+  | .dateTime _ => true
+  | .date _ => true
   | _ => false
 
+/-- the classes of literals in the order of their datatype URIs (numerics as one block) -/
 def litCls : Term → Nat
   | .bool _ => 0
-  | .num .. => 1
-  | .str .. => 2
-  | _ => 3
+  | .date _ => 1
+  | .dateTime _ => 2
+  | .num .. => 3
+  | .str .. => 4
+  | _ => 5
 
 def litInner : Term → Term → Bool
   | .bool x, .bool y => !x && y
   | .num _ v1 _, .num _ v2 _ => decide (v1 < v2)
   | .str l1 g1, .str l2 g2 => if g1 ≠ g2 then strLt g1 g2 else strLt l1 l2
+  | .dateTime f1, .dateTime f2 => if f1.aware ≠ f2.aware then f2.aware else decide (f1.key < f2.key)
+  | .date f1, .date f2 => decide (f1.ord < f2.ord)
   | _, _ => false
 
 theorem rat_lt_tricho (a b : Rat) : (!decide (b < a) && !(a == b)) = decide (a < b) := by
@@ -158,13 +173,43 @@ theorem rat_lt_tricho (a b : Rat) : (!decide (b < a) && !(a == b)) = decide (a <
     · have h1 : b < a := Rat.lt_of_le_of_ne (Rat.not_lt.1 h) (fun x => e x.symm)
       simp [h, h1]
 
-theorem okNum {d : DT} {v : Rat} {s : Nat} (h : okKey (some (.num d v s)) = true) :
-    DT.boolean.uriRank < d.uriRank ∧ d.uriRank < DT.string.uriRank := by
-  simpa [okKey] using h
+theorem int_lt_tricho (a b : Int) : (!decide (b < a) && !(a == b)) = decide (a < b) := by
+  by_cases h : a < b
+  · have h1 : ¬ b < a := by omega
+    have h2 : a ≠ b := by omega
+    simp [h, h1, h2]
+  · by_cases e : a = b
+    · subst e; simp
+    · have h1 : b < a := by omega
+      simp [h, h1, e]
 
-theorem litLt_eq (a b : Term) (ha : isLit a = true) (hb : isLit b = true)
-    (oa : okKey (some a) = true) (ob : okKey (some b) = true) :
+theorem nat_lt_tricho (a b : Nat) : (!decide (b < a) && !(a == b)) = decide (a < b) := by
+  by_cases h : a < b
+  · have h1 : ¬ b < a := by omega
+    have h2 : a ≠ b := by omega
+    simp [h, h1, h2]
+  · by_cases e : a = b
+    · subst e; simp
+    · have h1 : b < a := by omega
+      simp [h, h1, e]
+
+theorem okNum {wd : Bool} {d : DT} {v : Rat} {s : Nat} (h : okKey wd (some (.num d v s)) = true) :
+    DT.boolean.uriRank < d.uriRank ∧ d.uriRank < DT.string.uriRank ∧ (wd = true → DT.dateTime.uriRank < d.uriRank) := by
+  have r := rank_chain
+  cases wd
+  · simp only [okKey, Bool.false_eq_true, if_false, Bool.and_eq_true, decide_eq_true_eq] at h
+    exact ⟨h.1, h.2, fun e => by cases e⟩
+  · simp only [okKey, if_true, Bool.and_eq_true, decide_eq_true_eq] at h
+    exact ⟨by omega, h.2, fun _ => h.1⟩
+
+theorem okDT {wd : Bool} {f : DTF} (h : okKey wd (some (.dateTime f)) = true) : wd = true := by simpa [okKey] using h
+theorem okD {wd : Bool} {f : DF} (h : okKey wd (some (.date f)) = true) : wd = true := by simpa [okKey] using h
+
+/-- on admitted literals `Literal.__lt__` is the lexicographic order (class in datatype-URI order, then the order inside the class) -/
+theorem litLt_eq (wd : Bool) (a b : Term) (ha : isLit a = true) (hb : isLit b = true)
+    (oa : okKey wd (some a) = true) (ob : okKey wd (some b) = true) :
     litLt a b = if litCls a ≠ litCls b then Nat.blt (litCls a) (litCls b) else litInner a b := by
+  have r := rank_chain
   cases a <;> cases b <;> simp only [isLit, Bool.false_eq_true] at ha hb
   · -- num, num
     simp only [litLt, litGt, litEqv, litCls, litInner, ne_eq, not_true_eq_false, if_false]
@@ -173,35 +218,50 @@ theorem litLt_eq (a b : Term) (ha : isLit a = true) (hb : isLit b = true)
     rename_i d v s x
     have h := okNum oa
     have hne : d ≠ DT.boolean := by rintro rfl; omega
-    simp [litLt, litGt, litEqv, litCls, Term.dt, hne, blt_of_lt h.1, blt_of_lt h.2, blt_of_ge (Nat.le_of_lt h.1),
-      blt_of_ge (Nat.le_of_lt h.2), blt10, blt01, blt12, blt21, blt02, blt20]
+    have h1 : ¬ d.uriRank < DT.boolean.uriRank := by omega
+    simp [litLt, litGt, litEqv, litCls, Term.dt, hne, blt_dec, h.1, h1]
   · -- num, str
     rename_i d v s l g
     have h := okNum oa
     have hne : d ≠ DT.string := by rintro rfl; omega
-    simp [litLt, litGt, litEqv, litCls, Term.dt, hne, blt_of_lt h.1, blt_of_lt h.2, blt_of_ge (Nat.le_of_lt h.1),
-      blt_of_ge (Nat.le_of_lt h.2), blt10, blt01, blt12, blt21, blt02, blt20]
+    have h1 : ¬ DT.string.uriRank < d.uriRank := by omega
+    simp [litLt, litGt, litEqv, litCls, Term.dt, hne, blt_dec, h.2.1, h1]
+  · -- num, dateTime
+    rename_i d v s f
+    have h := (okNum oa).2.2 (okDT ob)
+    have hne : d ≠ DT.dateTime := by rintro rfl; omega
+    have h1 : ¬ d.uriRank < DT.dateTime.uriRank := by omega
+    simp [litLt, litGt, litEqv, litCls, Term.dt, hne, blt_dec, h, h1]
+  · -- num, date
+    rename_i d v s f
+    have h := (okNum oa).2.2 (okD ob)
+    have hne : d ≠ DT.date := by rintro rfl; omega
+    have h1 : ¬ d.uriRank < DT.date.uriRank := by omega
+    have h2 : DT.date.uriRank < d.uriRank := by omega
+    simp [litLt, litGt, litEqv, litCls, Term.dt, hne, blt_dec, h2, h1]
   · -- bool, num
     rename_i x d v s
     have h := okNum ob
     have hne : DT.boolean ≠ d := by rintro rfl; omega
-    simp [litLt, litGt, litEqv, litCls, Term.dt, hne, blt_of_lt h.1, blt_of_lt h.2, blt_of_ge (Nat.le_of_lt h.1),
-      blt_of_ge (Nat.le_of_lt h.2), blt10, blt01, blt12, blt21, blt02, blt20]
+    have h1 : ¬ d.uriRank < DT.boolean.uriRank := by omega
+    simp [litLt, litGt, litEqv, litCls, Term.dt, hne, blt_dec, h.1, h1]
   · -- bool, bool
     rename_i x y
     cases x <;> cases y <;> simp [litLt, litGt, litEqv, litCls, litInner, Term.dt]
   · -- bool, str
-    simp [litLt, litGt, litEqv, litCls, Term.dt, blt_of_lt rank_bool_str, blt_of_ge (Nat.le_of_lt rank_bool_str),
-      blt10, blt01, blt12, blt21, blt02, blt20]
+    simp [litLt, litGt, litEqv, litCls, Term.dt, blt_dec]; decide
+  · -- bool, dateTime
+    simp [litLt, litGt, litEqv, litCls, Term.dt, blt_dec]; decide
+  · -- bool, date
+    simp [litLt, litGt, litEqv, litCls, Term.dt, blt_dec]; decide
   · -- str, num
     rename_i l g d v s
     have h := okNum ob
     have hne : DT.string ≠ d := by rintro rfl; omega
-    simp [litLt, litGt, litEqv, litCls, Term.dt, hne, blt_of_lt h.1, blt_of_lt h.2, blt_of_ge (Nat.le_of_lt h.1),
-      blt_of_ge (Nat.le_of_lt h.2), blt10, blt01, blt12, blt21, blt02, blt20]
+    have h1 : ¬ DT.string.uriRank < d.uriRank := by omega
+    simp [litLt, litGt, litEqv, litCls, Term.dt, hne, blt_dec, h.2.1, h1]
   · -- str, bool
-    simp [litLt, litGt, litEqv, litCls, Term.dt, blt_of_lt rank_bool_str, blt_of_ge (Nat.le_of_lt rank_bool_str),
-      blt10, blt01, blt12, blt21, blt02, blt20]
+    simp [litLt, litGt, litEqv, litCls, Term.dt, blt_dec]; decide
   · -- str, str
     rename_i l1 g1 l2 g2
     simp only [litLt, litGt, litEqv, litCls, litInner, Term.dt, ne_eq, not_true_eq_false, if_false]
@@ -229,6 +289,49 @@ theorem litLt_eq (a b : Term) (ha : isLit a = true) (hb : isLit b = true)
           cases h : strLt g2 g1 with
           | true => simp [strLt_asymm _ _ h]
           | false => simp [strLt_total _ _ (fun e => hg e.symm) h]
+  · -- str, dateTime
+    simp [litLt, litGt, litEqv, litCls, Term.dt, blt_dec]; decide
+  · -- str, date
+    simp [litLt, litGt, litEqv, litCls, Term.dt, blt_dec]; decide
+  · -- dateTime, num
+    rename_i f d v s
+    have h := (okNum ob).2.2 (okDT oa)
+    have hne : DT.dateTime ≠ d := by rintro rfl; omega
+    have h1 : ¬ d.uriRank < DT.dateTime.uriRank := by omega
+    simp [litLt, litGt, litEqv, litCls, Term.dt, hne, blt_dec, h, h1]
+  · -- dateTime, bool
+    simp [litLt, litGt, litEqv, litCls, Term.dt, blt_dec]; decide
+  · -- dateTime, str
+    simp [litLt, litGt, litEqv, litCls, Term.dt, blt_dec]; decide
+  · -- dateTime, dateTime
+    rename_i f1 f2
+    simp only [litLt, litGt, litEqv, litCls, litInner, Term.dt, ne_eq, not_true_eq_false, if_false]
+    generalize f1.key = k1
+    generalize f2.key = k2
+    generalize f1.aware = a1
+    generalize f2.aware = a2
+    cases a1 <;> cases a2 <;> simp
+    · exact int_lt_tricho k1 k2
+    · exact int_lt_tricho k1 k2
+  · -- dateTime, date
+    simp [litLt, litGt, litEqv, litCls, Term.dt, blt_dec]; decide
+  · -- date, num
+    rename_i f d v s
+    have h := (okNum ob).2.2 (okD oa)
+    have hne : DT.date ≠ d := by rintro rfl; omega
+    have h1 : ¬ d.uriRank < DT.date.uriRank := by omega
+    have h2 : DT.date.uriRank < d.uriRank := by omega
+    simp [litLt, litGt, litEqv, litCls, Term.dt, hne, blt_dec, h2, h1]
+  · -- date, bool
+    simp [litLt, litGt, litEqv, litCls, Term.dt, blt_dec]; decide
+  · -- date, str
+    simp [litLt, litGt, litEqv, litCls, Term.dt, blt_dec]; decide
+  · -- date, dateTime
+    simp [litLt, litGt, litEqv, litCls, Term.dt, blt_dec]; decide
+  · -- date, date
+    rename_i f1 f2
+    simp only [litLt, litGt, litEqv, litCls, litInner, Term.dt, ne_eq, not_true_eq_false, if_false]
+    exact nat_lt_tricho _ _
 
 /-- lexicographic order on (language tag, lexical form) -/
 def pairLt (a b : Str × Str) : Bool := if a.1 ≠ b.1 then strLt a.1 b.1 else strLt a.2 b.2
@@ -281,11 +384,20 @@ theorem strictWeak_ratLt (S : Rat → Prop) : StrictWeak (fun a b : Rat => decid
     exact Rat.not_lt.2 (Rat.le_trans (Rat.not_lt.1 h2) (Rat.not_lt.1 h1))
 
 /-- the set of literals on which the comparison is well behaved -/
-def LitOk (t : Term) : Prop := isLit t = true ∧ okKey (some t) = true
+def LitOk (wd : Bool) (t : Term) : Prop := isLit t = true ∧ okKey wd (some t) = true
 
-theorem strictWeak_litLt : StrictWeak litLt LitOk := by
+theorem dtInner_asymm (a1 a2 : Bool) (k1 k2 : Int)
+    (h : (if a1 ≠ a2 then a2 else decide (k1 < k2)) = true) : (if a2 ≠ a1 then a1 else decide (k2 < k1)) = false := by
+  cases a1 <;> cases a2 <;> simp at h ⊢ <;> omega
+
+theorem dtInner_ntrans (a1 a2 a3 : Bool) (k1 k2 k3 : Int)
+    (h1 : (if a1 ≠ a2 then a2 else decide (k1 < k2)) = false) (h2 : (if a2 ≠ a3 then a3 else decide (k2 < k3)) = false) :
+    (if a1 ≠ a3 then a3 else decide (k1 < k3)) = false := by
+  cases a1 <;> cases a2 <;> cases a3 <;> simp at h1 h2 ⊢ <;> omega
+
+theorem strictWeak_litLt (wd : Bool) : StrictWeak litLt (LitOk wd) := by
   apply StrictWeak.lex (rank := litCls) (inner := litInner)
-  · intro a b ha hb; exact litLt_eq a b ha.1 hb.1 ha.2 hb.2
+  · intro a b ha hb; exact litLt_eq wd a b ha.1 hb.1 ha.2 hb.2
   · intro a b ha hb hr h
     cases a <;> cases b <;> simp only [isLit, LitOk, Bool.false_eq_true, false_and] at ha hb <;>
       simp only [litCls] at hr <;> try omega
@@ -293,6 +405,8 @@ theorem strictWeak_litLt : StrictWeak litLt LitOk := by
     · rename_i x y; revert h; cases x <;> cases y <;> simp [litInner]
     · rename_i l1 g1 l2 g2
       exact (strictWeak_pairLt (fun _ => True)).asymm (g1, l1) (g2, l2) trivial trivial h
+    · exact dtInner_asymm _ _ _ _ h
+    · simp only [litInner, decide_eq_true_eq, decide_eq_false_iff_not] at h ⊢; omega
   · intro a b c ha hb hc hr1 hr2 h1 h2
     cases a <;> cases b <;> simp only [isLit, LitOk, Bool.false_eq_true, false_and] at ha hb <;>
       simp only [litCls] at hr1 <;> (try omega) <;>
@@ -302,6 +416,8 @@ theorem strictWeak_litLt : StrictWeak litLt LitOk := by
     · rename_i x y z; revert h1 h2; cases x <;> cases y <;> cases z <;> simp [litInner]
     · rename_i l1 g1 l2 g2 l3 g3
       exact (strictWeak_pairLt (fun _ => True)).ntrans (g1, l1) (g2, l2) (g3, l3) trivial trivial trivial h1 h2
+    · exact dtInner_ntrans _ _ _ _ _ _ h1 h2
+    · simp only [litInner, decide_eq_false_iff_not] at h1 h2 ⊢; omega
 
 /-! ### terms and keys -/
 
@@ -369,7 +485,7 @@ theorem lit_of_kind {x : Term} (h : kindOf (some x) = 3) : isLit x = true := by
   cases x <;> simp only [kindOf] at h <;> first | rfl | omega
 
 /-- rdflib's sort-key comparison is a strict weak order on the keys `okKey` admits -/
-theorem strictWeak_keyLt : StrictWeak keyLt (fun v => okKey v = true) := by
+theorem strictWeak_keyLt (wd : Bool) : StrictWeak keyLt (fun v => okKey wd v = true) := by
   apply StrictWeak.lex (rank := valRank) (inner := keyInner)
   · intro a b _ _; exact keyLt_eq a b
   · intro a b ha hb hr h
@@ -385,7 +501,7 @@ theorem strictWeak_keyLt : StrictWeak keyLt (fun v => okKey v = true) := by
         · have hy : isLit y = true := lit_of_kind (by rw [← hk]; exact kind_lit hx)
           rw [termLt_lit _ _ hx hy] at h
           rw [termLt_lit _ _ hy hx]
-          exact strictWeak_litLt.asymm _ _ ⟨hx, ha⟩ ⟨hy, hb⟩ h
+          exact (strictWeak_litLt wd).asymm _ _ ⟨hx, ha⟩ ⟨hy, hb⟩ h
         · cases x <;> simp only [isLit, not_true_eq_false] at hx <;>
             cases y <;> simp only [kindOf] at hk <;> (try omega) <;> exact strLt_asymm _ _ h
   · intro a b c ha hb hc hr1 hr2 h1 h2
@@ -407,7 +523,7 @@ theorem strictWeak_keyLt : StrictWeak keyLt (fun v => okKey v = true) := by
             rw [termLt_lit _ _ hx hy] at h1
             rw [termLt_lit _ _ hy hz] at h2
             rw [termLt_lit _ _ hx hz]
-            exact strictWeak_litLt.ntrans _ _ _ ⟨hx, ha⟩ ⟨hy, hb⟩ ⟨hz, hc⟩ h1 h2
+            exact (strictWeak_litLt wd).ntrans _ _ _ ⟨hx, ha⟩ ⟨hy, hb⟩ ⟨hz, hc⟩ h1 h2
           · cases x <;> simp only [isLit, not_true_eq_false] at hx <;>
               cases y <;> simp only [kindOf] at hk1 <;> (try omega) <;>
               cases z <;> simp only [kindOf] at hk2 <;> (try omega) <;>
@@ -415,33 +531,46 @@ theorem strictWeak_keyLt : StrictWeak keyLt (fun v => okKey v = true) := by
 
 /-! ### `>` is the converse of `<` on the admitted keys (Python's `max` uses `>`, `min` and `sorted` use `<`) -/
 
-theorem litGt_flip (a b : Term) (ha : isLit a = true) (hb : isLit b = true)
-    (oa : okKey (some a) = true) (ob : okKey (some b) = true) : litGt a b = litLt b a := by
-  rw [litLt_eq b a hb ha ob oa]
+theorem litGt_flip (wd : Bool) (a b : Term) (ha : isLit a = true) (hb : isLit b = true)
+    (oa : okKey wd (some a) = true) (ob : okKey wd (some b) = true) : litGt a b = litLt b a := by
+  rw [litLt_eq wd b a hb ha ob oa]
+  have r := rank_chain
   cases a <;> cases b <;> simp only [isLit, Bool.false_eq_true] at ha hb
   · -- num, num
-    rename_i d1 v1 s1 d2 v2 s2
     simp only [litGt, litCls, litInner, ne_eq, not_true_eq_false, if_false]
   · rename_i d v s x
     have h := okNum oa
     have hne : d ≠ DT.boolean := by rintro rfl; omega
-    simp [litGt, litCls, Term.dt, hne, blt_of_lt h.1, blt01]
+    simp [litGt, litCls, Term.dt, hne, blt_dec, h.1]
   · rename_i d v s l g
     have h := okNum oa
     have hne : d ≠ DT.string := by rintro rfl; omega
-    simp [litGt, litCls, Term.dt, hne, blt_of_ge (Nat.le_of_lt h.2), blt21]
+    have h1 : ¬ DT.string.uriRank < d.uriRank := by omega
+    simp [litGt, litCls, Term.dt, hne, blt_dec, h1]
+  · rename_i d v s f
+    have h := (okNum oa).2.2 (okDT ob)
+    have hne : d ≠ DT.dateTime := by rintro rfl; omega
+    simp [litGt, litCls, Term.dt, hne, blt_dec, h]
+  · rename_i d v s f
+    have h := (okNum oa).2.2 (okD ob)
+    have hne : d ≠ DT.date := by rintro rfl; omega
+    have h2 : DT.date.uriRank < d.uriRank := by omega
+    simp [litGt, litCls, Term.dt, hne, blt_dec, h2]
   · rename_i x d v s
     have h := okNum ob
     have hne : DT.boolean ≠ d := by rintro rfl; omega
-    simp [litGt, litCls, Term.dt, hne, blt_of_ge (Nat.le_of_lt h.1), blt10]
+    have h1 : ¬ d.uriRank < DT.boolean.uriRank := by omega
+    simp [litGt, litCls, Term.dt, hne, blt_dec, h1]
   · rename_i x y
     cases x <;> cases y <;> simp [litGt, litCls, litInner, Term.dt]
-  · simp [litGt, litCls, Term.dt, blt_of_ge (Nat.le_of_lt rank_bool_str), blt20]
+  · simp [litGt, litCls, Term.dt, blt_dec]; decide
+  · simp [litGt, litCls, Term.dt, blt_dec]; decide
+  · simp [litGt, litCls, Term.dt, blt_dec]; decide
   · rename_i l g d v s
     have h := okNum ob
     have hne : DT.string ≠ d := by rintro rfl; omega
-    simp [litGt, litCls, Term.dt, hne, blt_of_lt h.2, blt12]
-  · simp [litGt, litCls, Term.dt, blt_of_lt rank_bool_str, blt02]
+    simp [litGt, litCls, Term.dt, hne, blt_dec, h.2.1]
+  · simp [litGt, litCls, Term.dt, blt_dec]; decide
   · rename_i l1 g1 l2 g2
     simp only [litGt, litCls, litInner, Term.dt, ne_eq, not_true_eq_false, if_false]
     by_cases hg : g1 = g2
@@ -459,17 +588,41 @@ theorem litGt_flip (a b : Term) (ha : isLit a = true) (hb : isLit b = true)
           | nil => exact absurd rfl h1
           | cons c cs => simp [strLt]
         · simp [h1, h2]
+  · simp [litGt, litCls, Term.dt, blt_dec]; decide
+  · simp [litGt, litCls, Term.dt, blt_dec]; decide
+  · rename_i f d v s
+    have h := (okNum ob).2.2 (okDT oa)
+    have hne : DT.dateTime ≠ d := by rintro rfl; omega
+    have h1 : ¬ d.uriRank < DT.dateTime.uriRank := by omega
+    simp [litGt, litCls, Term.dt, hne, blt_dec, h1]
+  · simp [litGt, litCls, Term.dt, blt_dec]; decide
+  · simp [litGt, litCls, Term.dt, blt_dec]; decide
+  · rename_i f1 f2
+    simp only [litGt, litCls, litInner, Term.dt, ne_eq, not_true_eq_false, if_false]
+    generalize f1.aware = a1
+    generalize f2.aware = a2
+    cases a1 <;> cases a2 <;> simp
+  · simp [litGt, litCls, Term.dt, blt_dec]; decide
+  · rename_i f d v s
+    have h := (okNum ob).2.2 (okD oa)
+    have hne : DT.date ≠ d := by rintro rfl; omega
+    have h1 : ¬ d.uriRank < DT.date.uriRank := by omega
+    simp [litGt, litCls, Term.dt, hne, blt_dec, h1]
+  · simp [litGt, litCls, Term.dt, blt_dec]; decide
+  · simp [litGt, litCls, Term.dt, blt_dec]; decide
+  · simp [litGt, litCls, Term.dt, blt_dec]; decide
+  · simp only [litGt, litCls, litInner, Term.dt, ne_eq, not_true_eq_false, if_false]
 
-theorem termGt_flip (x y : Term) (hk : kindOf (some x) = kindOf (some y))
-    (ox : okKey (some x) = true) (oy : okKey (some y) = true) : termGt x y = termLt y x := by
+theorem termGt_flip (wd : Bool) (x y : Term) (hk : kindOf (some x) = kindOf (some y))
+    (ox : okKey wd (some x) = true) (oy : okKey wd (some y) = true) : termGt x y = termLt y x := by
   by_cases hx : isLit x = true
   · have hy : isLit y = true := lit_of_kind (by rw [← hk]; exact kind_lit hx)
-    rw [termLt_lit _ _ hy hx, ← litGt_flip x y hx hy ox oy]
+    rw [termLt_lit _ _ hy hx, ← litGt_flip wd x y hx hy ox oy]
     cases x <;> cases y <;> simp only [isLit, Bool.false_eq_true] at hx hy <;> rfl
   · cases x <;> simp only [isLit, not_true_eq_false] at hx <;>
       cases y <;> simp only [kindOf] at hk <;> (try omega) <;> rfl
 
-theorem keyGt_flip (a b : Val) (oa : okKey a = true) (ob : okKey b = true) : keyGt a b = keyLt b a := by
+theorem keyGt_flip (wd : Bool) (a b : Val) (oa : okKey wd a = true) (ob : okKey wd b = true) : keyGt a b = keyLt b a := by
   unfold keyGt keyLt
   by_cases hr : valRank a = valRank b
   · have h1 : ¬ (valRank a ≠ valRank b) := fun h => h hr
@@ -486,7 +639,7 @@ theorem keyGt_flip (a b : Val) (oa : okKey a = true) (ob : okKey b = true) : key
         · subst e; simp
         · have e' : ¬ y = x := fun h => e h.symm
           simp only [e, e', if_false]
-          exact termGt_flip x y (kind_of_rank hr) oa ob
+          exact termGt_flip wd x y (kind_of_rank hr) oa ob
   · have h1 : valRank a ≠ valRank b := hr
     have h2 : valRank b ≠ valRank a := fun h => hr h.symm
     rw [if_pos h1, if_pos h2]
